@@ -297,10 +297,19 @@ func (s Site) BoundaryOK(t *verifsim.Tape, d *spec.Design, loc Loc) bool {
 		}
 		return f
 	}
+	// a defaulted attribute lives in a non-pointer Go field: its zero value IS "unset" for goa's transforms, so the
+	// sender cannot express "0, not the default" (stated in the check's assumptions); such boundaries are skipped
+	zeroOfDefaulted := func(f float64) bool { return s.attr.HasDef && f == 0 }
 	switch s.Rule {
 	case "min":
+		if zeroOfDefaulted(*v0.Min) {
+			return false
+		}
 		s.set(conv(*v0.Min))
 	case "max":
+		if zeroOfDefaulted(*v0.Max) {
+			return false
+		}
 		s.set(conv(*v0.Max))
 	case "max_length":
 		if x, ok := cur.(string); ok {
@@ -319,7 +328,7 @@ func (s Site) BoundaryOK(t *verifsim.Tape, d *spec.Design, loc Loc) bool {
 	case "min_length":
 		if x, ok := cur.(string); ok {
 			r := []rune(x)
-			if len(r) >= *v0.MinLength {
+			if len(r) >= *v0.MinLength && !(s.attr.HasDef && *v0.MinLength == 0) {
 				s.set(carrierSafe(string(r[:*v0.MinLength]), loc))
 				return true
 			}
